@@ -235,6 +235,33 @@ theorem chunks_le_reserved (blocks : List Block) (r : Req) (hs : r.skipChunks = 
   simp only [this]
   exact h1
 
+/-- on every path that emits series — eager or lazily expanded postings per block, chunks skipped or not — what
+    the series limiter was charged bounds the series of the answer (no hypothesis on `r.skipChunks`) -/
+theorem series_le_reserved_mode (lazy : Block → Bool) (blocks : List Block) (r : Req) :
+    countSeries (bucketSeries blocks r) ≤ seriesReservedMode lazy blocks r := by
+  unfold countSeries seriesReservedMode bucketSeries
+  have h1 := (canonSeries_bounds ((selected blocks r).flatMap (blockSeries r.without · r))).1
+  rw [List.length_flatMap] at h1
+  have h2 := sum_map_le (fun b => (blockSeries r.without b r).length)
+    (fun b => blockSeriesReservedMode (lazy b) r.without b r)
+    (fun b => by
+      unfold blockSeriesReservedMode
+      split
+      · exact Nat.le_refl _
+      · exact blockSeries_le_reserved r.without b r) (selected blocks r)
+  omega
+
+/-- so a request the series limiter granted is within the series limit, whichever blocks were expanded lazily
+    and whether or not the request skips chunks -/
+theorem C09_series_any_path (sl : Nat) (hsl : sl ≠ 0) (lazy : Block → Bool) (blocks : List Block) (r : Req)
+    (hgranted : Limiter.allGranted (Limiter.new sl)
+      ((selected blocks r).map (fun b => blockSeriesReservedMode (lazy b) r.without b r)) = true) :
+    countSeries (bucketSeries blocks r) ≤ sl := by
+  have := Limiter.C09_limiter_sound sl hsl _ hgranted
+  have := series_le_reserved_mode lazy blocks r
+  unfold seriesReservedMode at this
+  omega
+
 /-- C09 in the specification: a request that is granted is within both limits and is the complete answer;
     a request is refused only when a reservation sum exceeds its limit -/
 theorem C09_spec (sl cl : Nat) (blocks : List Block) (r : Req) (hs : r.skipChunks = false) :
@@ -301,6 +328,23 @@ theorem C09_fact_codes :
     Thanos.Facts.storesLimitErrorCodes = ["int(codes.ResourceExhausted)", "int(codes.ResourceExhausted)", "int(codes.ResourceExhausted)"]
     ∧ Thanos.Facts.storesWarnCodeCond = "strings.Contains(warn, \"rpc error: code = ResourceExhausted\")"
     ∧ Thanos.Facts.storesLimiterCond = "reserved := l.reserved.Add(num); reserved > l.limit" := by decide
+
+/-- regenerated facts: in `nextBatch` a series is counted (`seriesMatched++`) before the skip-chunks shortcut
+    appends it, and after the loop the reservation of lazily expanded postings comes before everything else —
+    no return precedes it, in particular none for requests that skip chunks -/
+theorem C09_fact_reserve_on_every_path :
+    Thanos.Facts.storesNextBatchTail =
+      ["if lazyExpandedPosting { if b.seriesLimiter.Reserve }", "if !b.skipChunks { if b.chunkr.load }", "return"]
+    ∧ Thanos.Facts.storesNextBatchLoop =
+      ["if b.ctx.Err", "hasMatchedChunks := b.indexr.LoadSeriesForTime", "if err != nil { return }",
+       "if !lazyExpandedPosting && !hasMatchedChunks { continue }", "if b.indexr.LookupLabelsSymbols",
+       "b.lset = b.b.Labels", "loop", "if lazyExpandedPosting { b.expandedPostings = append }",
+       "if !hasMatchedChunks { continue }", "completeLabelset := labelpb.ExtendSortedLabels",
+       "if b.extLsetToRemove != nil { completeLabelset = rmLabels }",
+       "if !b.shardMatcher.MatchesLabels(completeLabelset) { continue }", "seriesMatched++",
+       "if b.seriesLimit > 0 && seriesMatched > b.seriesLimit { b.hasMorePostings =; break }", "s :=",
+       "if b.skipChunks { b.entries = append; continue }", "s.refs = make", "s.chks = make", "loop",
+       "if b.chunksLimiter.Reserve", "b.entries = append"] := by decide
 
 /-! ### which error a refused reservation surfaces as -/
 
